@@ -1,6 +1,6 @@
 (** Property C06 - freed storage is reclaimed; file size is bounded by the live set. *)
 From Aby Require Import Base Vu64 KeyTypes Consts Sizing Alloc AllocInv AllocInv_proofs Htx Store Spec
-  Refine Refine_all Structure.
+  Refine Refine_all Structure Bounded.
 
 (** after any history both piece files satisfy the allocator invariant [alloc_inv] (AllocInv.v):
     the slots tile [header, end of file) without gaps or overlaps, every slot has a size the
@@ -56,6 +56,38 @@ Theorem C06_walk_terminates_key : @walk_spec krec key_cfg.
 Proof. exact (walk_ok_stmt krec key_cfg key_cfg_ok). Qed.
 Theorem C06_walk_terminates_val : @walk_spec bytes val_cfg.
 Proof. exact (walk_ok_stmt bytes val_cfg val_cfg_ok). Qed.
+
+(** HENCE file sizes stay bounded for any workload whose live set stays bounded, however many
+    operations it performs.  [peak_live m ops]: the largest number of live entries at any point of
+    the history.  (1) For every slot size y the number of slots of that size never exceeds what the
+    start state had or the peak number of live entries: *)
+Theorem C06_slots_bounded_by_peak_live_set : forall s m ops s' outs P,
+  Inv s -> represents s m -> Forall (op_wf (kt s)) ops -> store_run s ops = Ok (s', outs) ->
+  (peak_live m ops <= P)%nat ->
+  forall y,
+    (n_eq y (keyf s') <= max (n_eq y (keyf s)) P)%nat /\
+    (n_eq y (valf s') <= max (n_eq y (valf s)) P)%nat.
+Proof. exact C06_bounded_by_peak_live_set. Qed.
+
+(** (2) with keys and values shorter than L bytes, both file lengths are bounded by a function of
+    (start length, peak live count, L) - the length of the history does not occur: *)
+Theorem C06_file_size_bounded_by_live_set : forall s m ops s' outs P L,
+  Inv s -> represents s m -> Forall (op_wf (kt s)) ops -> store_run s ops = Ok (s', outs) ->
+  (peak_live m ops <= P)%nat ->
+  (forall k v, m !! k = Some v -> blen k < L) -> Forall (op_short L) ops ->
+  fend (keyf s') <= bound (fend (keyf s)) P L /\ fend (valf s') <= bound (fend (valf s)) P L.
+Proof. exact C06_file_size_bounded. Qed.
+
+Theorem C06_bound_closed_form : forall F P L,
+  bound F P L <= F + N.of_nat P * (5080 + (L + 164) / 128 * (L + 164)).
+Proof. exact bound_closed_form. Qed.
+
+(** what is NOT true (kernel-checked counterexamples in Bounded.v): the number of LARGE slots of
+    size >= y is not bounded by the peak live count alone - first fit cannot re-use a freed 1024-byte
+    slot for a 1152-byte request, so one live value that keeps growing leaves one slot per size
+    behind; the bound needs the size limit L (theorem above, and C06_n_ge_bounded). *)
+Theorem C06_large_slots_need_the_size_bound : ~ n_ge_claim.
+Proof. exact C06_n_ge_refuted_large. Qed.
 
 (** non-vacuity: delete then re-insert at the same size re-uses the freed slots: the files do not grow *)
 Definition c06_s1 : res (store * list dout) :=
